@@ -516,7 +516,7 @@ def storages(o, out=None):
 
 class Case:
     __slots__ = ("e", "src", "defdt", "rg", "q", "oin", "n0", "obs", "exc", "fails", "ok_abs", "extra", "cell",
-                 "defdt0", "dt0", "incons", "mixed", "snap0", "d_in", "d_in_exc")
+                 "defdt0", "dt0", "incons", "mixed", "snap0", "d_in", "d_in_exc", "pair_fails")
 
     def spec(self):
         d = {"expr": self.e, "src": self.src, "default_dtype": self.defdt, "requires_grad": self.rg, "query": list(self.q)}
@@ -561,7 +561,7 @@ def returned_dtype_failures(op, want, tag):
 
 
 CONVERTING = ("double", "float", "type", "to")
-PRIORITY = ["aliased-result", "source-changed", "raises", "silent", "not-an-operator", "class", "arity", "kind", "flag", "kwarg", "shape", "leaf", "index-cast",
+PRIORITY = ["aliased-result", "shared-component", "copy-coupled", "source-changed", "raises", "silent", "not-an-operator", "class", "arity", "kind", "flag", "kwarg", "shape", "leaf", "index-cast",
             "leaf-dtype", "dtype", "requires_grad", "shared-storage", "dense-value", "returned-dtype", "representation"]
 
 
@@ -596,6 +596,11 @@ def direct_check(case, o, res, exc, meta, heavy=True):
         if o.dtype is not None:
             fails += returned_dtype_failures(o, NDT[src] if has_float else o.dtype, "original")
         return fails
+    if q[0] == "pair":
+        # two copies, one mutated: the other copy (checked here) and the source (source integrity) stay what they were
+        if exc is not None:
+            return [{"fail": "raises:" + exc.split(":")[0], "exc": exc}]
+        return list(case.pair_fails or [])
     if q[0] == "rgset":
         # op.requires_grad_(val) (in place, returns the operator): exactly the floating tensors get the flag, integer /
         # boolean index data are never touched, nothing else changes
@@ -735,6 +740,7 @@ def run_case(meta, e, src, defdt, rg, q, heavy=True, defdt0=None, mixed=False):
     c.defdt0, c.mixed = defdt0, bool(mixed)
     c.extra = None
     c.obs, c.exc, c.fails, c.ok_abs = None, None, [], True
+    c.pair_fails = None
     torch.set_default_dtype(NDT[defdt0 or defdt])
     with warnings.catch_warnings():
         warnings.simplefilter("ignore")
@@ -758,7 +764,7 @@ def run_case(meta, e, src, defdt, rg, q, heavy=True, defdt0=None, mixed=False):
               {t["dtype"] for t in c.snap0["tensors"] if t["dtype"] in ("torch.float32", "torch.float64")}
         c.incons = len(dts) > 1
         c.d_in, c.d_in_exc = None, None
-        if q[0] not in ("repr", "dtype", "returned", "rgset"):
+        if q[0] not in ("repr", "dtype", "returned", "rgset", "pair"):
             try:
                 c.d_in = o.to_dense().detach().clone()
             except Exception as ex:
@@ -772,12 +778,14 @@ def run_case(meta, e, src, defdt, rg, q, heavy=True, defdt0=None, mixed=False):
                 res = o.dtype
             elif q[0] == "returned":
                 res = None
+            elif q[0] == "pair":
+                res, c.pair_fails = sq.pair_run(o, q, src)
             else:
                 res = apply_query(o, q)
         except Exception as ex:
             c.exc = "%s: %s" % (type(ex).__name__, str(ex)[:120])
         from linear_operator.operators import LinearOperator
-        if c.exc is None and isinstance(res, LinearOperator) and q[0] != "rgset":
+        if c.exc is None and isinstance(res, LinearOperator) and q[0] not in ("rgset", "pair"):
             try:
                 c.obs = ab.op(res)
             except Unabstractable as ex:
@@ -790,7 +798,7 @@ def run_case(meta, e, src, defdt, rg, q, heavy=True, defdt0=None, mixed=False):
         integ = sq.diff_snapshot(c.snap0, sq.snapshot(o))
         if q[0] == "rgset":
             integ = [f for f in integ if f["fail"] != "source-changed:tensor-requires_grad"]
-        if c.exc is None and q[0] not in ("repr", "dtype", "returned", "rgset"):
+        if c.exc is None and q[0] not in ("repr", "dtype", "returned", "rgset", "pair"):
             integ = sq.alias_failures(o, res, c.snap0, q, target_dtype(q, src)) + integ
         if integ:
             c.fails = sorted(c.fails + integ, key=fail_rank)
@@ -813,7 +821,7 @@ def case_lit(c):
 
 def in_model(c):
     """cases compared with the Coq model"""
-    if not c.ok_abs or c.q[0] in ("returned", "rgset"):
+    if not c.ok_abs or c.q[0] in ("returned", "rgset", "pair"):
         return False
     if c.q[0] == "evaluate_kernel" and c.oin[1] in ("CAddedDiag", "CKronAddedDiag", "CLowRankRootAddedDiag"):
         return False            # goes through __add__ (C02); only the direct predicates apply
@@ -1015,6 +1023,24 @@ def grid(ctx):
             cells.append(("D:%s:unbuildable:%s" % (name, type(ex).__name__), None, None, None, None, None))
             continue
         add("D:%s" % name, e, DT_MIXED, core_q if quick else allq, RGS)
+    # P. two-copy sequences: two copies of the same operator, one of them mutated
+    pk = 0
+    pexprs = []
+    for ci, cls in enumerate(ob.ALL):
+        try:
+            pexprs.append(("P:%s" % cls, sq.with_perm_dtype(ob.gen(rng, cls, batch=[[], [2]][ci % 2], m=3, n=2, depth=1))))
+        except Exception:
+            continue
+    for name, e in special_exprs(rng):
+        pexprs.append(("P:D:%s" % name, sq.with_perm_dtype(e)))
+    for name, e in pexprs:
+        if not _buildable(e):
+            continue
+        for (src, defdt) in DT_MIXED:
+            pk += 1
+            prs = sq.PAIRS if not quick else [sq.PAIRS[(pk * 3 + j * 4 + ctx.seed) % len(sq.PAIRS)] for j in range(3)]
+            for (how, mut) in dict.fromkeys(prs):
+                cells.append((name, e, src, defdt, "none", ("pair", how, mut)))
     # H. default-dtype histories: constructed under default X (dtypes omitted wherever a constructor allows it), the
     #    default is switched to Y, then the copy / conversion / rebuild runs
     ok = lambda e: _buildable(e)
@@ -1139,6 +1165,8 @@ def finding_key(meta, c, f):
             # re-applies requires_grad_ per factor whenever an enclosing constructor rebuilds it with a batch shape
             return dict({"class": "Kron", "fail": "requires_grad"}, **extra), e2, q2, f2
     key = {"class": cls, "op": fam, "opg": opg(fam), "fail": kind}
+    if q2[0] == "pair":
+        key["how"], key["mut"] = q2[1], q2[2]
     if f2.get("site"):
         key["site"] = f2["site"]
     return dict(key, **extra), e2, q2, f2
@@ -1169,7 +1197,7 @@ def execute(ctx, meta, cells, heavy_every=3):
     for i, cell in enumerate(cells):
         name, e, src, defdt, rg, q = cell[:6]
         opts = cell[6] if len(cell) > 6 else {}
-        if q is not None and q[0] == "rgset":
+        if q is not None and q[0] in ("rgset", "pair"):
             rg = "none"                 # requires_grad_() is exercised on operators over fresh leaf tensors
         if e is None:
             skipped.append(name)
@@ -1293,7 +1321,7 @@ def run(ctx):
     # coverage
     def ntkey(c):
         return (describe(c.e), c.src, c.defdt, family(c.q))
-    nontrivial = {ntkey(c) for c in cases if c.q[0] not in ("dtype", "repr", "returned", "rgset")
+    nontrivial = {ntkey(c) for c in cases if c.q[0] not in ("dtype", "repr", "returned", "rgset", "pair")
                   and (c.src != c.defdt or len(all_subs(c.e)) > 1)}
     dist = {}
     for c in cases:
